@@ -81,6 +81,9 @@ def check_worker(ctx, u, f, lab, blocked):
         ctx.check((ref_decl(val) or {}).get('id') == end['id'], R1, lab + '|cursor-store#%d' % i, s, 'the only plain store moves the cursor to end_value', 'the cursor is overwritten with %s: it can move below a value already issued (duplicates) or skip work' % nf(val))
     # callback invocations
     calls = [c for c in walk(body) if c.get('kind') == 'CXXOperatorCallExpr' and len(c['inner']) > 1 and (ref_decl(c['inner'][1]) or {}).get('id') == fnp['id']]
+    if not calls and any((ref_decl(a_) or {}).get('id') == fnp['id'] for c_ in walk(body) if c_.get('kind') == 'CallExpr' for a_ in call_args(c_)):
+        ctx.undecided(R1, lab + '|callback-site', f, 'the callback is handed to a helper function and invoked there: the claimed-value discipline is not decided by this rule')
+        return
     ctx.check(len(calls) == 1, R1, lab + '|callback-site', calls[0] if calls else f, 'one callback invocation site', 'fn is invoked at %d sites' % len(calls))
     for c in calls:
         a = c['inner'][2:]
@@ -119,6 +122,15 @@ def check_worker(ctx, u, f, lab, blocked):
         hit_if = enclosing(wv, ('IfStmt',))
         ok = hit_if is not None
         why = 'result is written outside an `if (fn(...))`'
+        # fact-based form: the callback having returned true for the stored value is the last condition on the path
+        fa_ = [(strip(n_), p_) for n_, p_ in atoms(path_facts(wv))]
+        hit_ = [n_ for n_, p_ in fa_ if p_ and any(n_ is c_ for c_ in calls)]
+        if hit_ and nf(hit_[0]['inner'][2]) == nf(val):
+            later_ = [n_ for n_, p_ in fa_ if n_ is not hit_[0] and n_.get('_off', 0) > hit_[0].get('_off', 0)]
+            pre_w = [s_ for s_ in preceding_statements(wv) if s_.get('_off', 0) > hit_[0].get('_off', 0) and s_.get('kind') not in ('NullStmt',) and not any(y is hit_[0] for y in walk(s_))]
+            if not later_ and not pre_w:
+                ctx.ok(R2, lab + '|result-written-on-hit', wv, 'result_value = v stored right after fn(v) returned true')
+                continue
         if ok:
             cond, then, els = if_parts(hit_if)
             cc = strip(cond)
@@ -147,8 +159,38 @@ def check_driver(ctx, u, f, lab, worker_name):
             ok = nf(a[-1]) == 'threads.size()' and any((ref_decl(x) or {}).get('name') == worker_name for x in walk(a[0])) and \
                 ['current_value', 'result_value'] == [n_ for n_ in (nf(x) for x in a) if n_ in ('std::ref(current_value)', 'std::ref(result_value)', 'current_value', 'result_value')] or \
                 (nf(a[-1]) == 'threads.size()' and any('ref(current_value)' in nf(x) for x in a) and any('ref(result_value)' in nf(x) for x in a))
+    if not mk:
+        # `for (size_t t = 0; t < num_threads; t++) threads.emplace_back(worker, ..., t)`
+        for lp_ in walk(body):
+            if lp_.get('kind') == 'ForStmt':
+                init_, cv_, cond_, inc_, lb_ = for_parts(lp_)
+                zd_ = next((v for v in walk(init_) if v.get('kind') == 'VarDecl'), None) if init_ else None
+                eb_ = [c for c in walk(lb_) if c.get('kind') == 'CXXMemberCallExpr' and call_name(c) == 'emplace_back' and canon(member_call_object(c)) == 'threads']
+                if zd_ is not None and len(eb_) == 1 and kids(zd_) and int_value(kids(zd_)[-1]) == 0 and cond_ is not None and nf(cond_) == '(%s < num_threads)' % zd_['name'] and inc_ is not None and nf(inc_) in ('(%s++)' % zd_['name'], '++%s' % zd_['name']):
+                    a_ = call_args(eb_[0])
+                    ok = nf(a_[-1]) == zd_['name'] and any((ref_decl(x) or {}).get('name') == worker_name for x in walk(a_[0])) and any('ref(current_value)' in nf(x) for x in a_) and any('ref(result_value)' in nf(x) for x in a_)
+                    mk = [lp_]
     ctx.check(ok, R, lab + '|thread-creation', mk[0] if mk else f, 'num_threads workers, each given thread_num = threads.size() at creation (so 0..num_threads-1) and the shared atomics by reference', 'thread creation changed (thread numbers are no longer 0..num_threads-1, or the atomics are copied)')
     joins = [s for s in stmts_of(body) if s.get('kind') == 'CXXForRangeStmt' and any(canon(x) == 'threads' for x in walk(s) if x.get('kind') == 'DeclRefExpr') and any(c.get('kind') == 'CXXMemberCallExpr' and call_name(c) == 'join' for c in walk(s))]
+    if not joins:
+        # a helper that joins every element of the vector it is given
+        for s_ in stmts_of(body):
+            c_ = strip(s_)
+            if c_.get('kind') == 'CallExpr' and len(call_args(c_)) == 1 and canon(call_args(c_)[0]) == 'threads':
+                d_ = callee_decl(c_, u)
+                hb = body_of(d_) if d_ is not None else None
+                if hb is not None:
+                    lps_ = [lp_ for lp_ in walk(hb) if lp_.get('kind') in LOOPS and any(c2.get('kind') == 'CXXMemberCallExpr' and call_name(c2) == 'join' for c2 in walk(lp_))]
+                    full_ = False
+                    for lp_ in lps_:
+                        if lp_.get('kind') == 'CXXForRangeStmt':
+                            full_ = True
+                        elif lp_.get('kind') == 'ForStmt':
+                            i_, cv2, cd_, in_, lb2 = for_parts(lp_)
+                            zd2 = next((v for v in walk(i_) if v.get('kind') == 'VarDecl'), None) if i_ else None
+                            full_ = zd2 is not None and kids(zd2) and int_value(kids(zd2)[-1]) == 0 and cd_ is not None and cd_.get('kind') and nf(cd_).endswith('.size())') and nf(cd_).startswith('(%s < ' % zd2['name'])
+                    if lps_ and full_ and not any(x_.get('kind') in ('ReturnStmt', 'BreakStmt', 'ContinueStmt', 'CXXThrowExpr') for x_ in walk(hb)):
+                        joins = [s_]
     rets = [r for r in walk(body) if r.get('kind') == 'ReturnStmt']
     okj = len(joins) == 1 and bool(mk) and joins[0]['_off'] > mk[0]['_off'] and all(r['_off'] > joins[0]['_off'] for r in rets)
     early = [x for x in walk(body) if x.get('kind') in ('ReturnStmt', 'CXXThrowExpr') and mk and mk[0]['_off'] < x['_off'] < (joins[0]['_off'] if joins else 0)]
@@ -235,6 +277,14 @@ def run(ctx):
             skip_k = any(x.get('kind') == 'IfStmt' and any(y.get('kind') == 'ContinueStmt' for y in walk(if_parts(x)[1])) for x in walk(lbody))
             okm = full and len(merges) == 1 and ((k == 0 and s0 == 1) or (s0 == 0 and skip_k))
             why = 'result starts from thread_rets[%s] and the merge loop starts at %s%s: %s' % (k if k is not None else nf(idx[0]['inner'][2]) if idx else '?', s0, ' skipping one index' if skip_k else '', 'some worker\'s hits are never merged' if not okm else 'every set is merged')
+    if ret is not None and not okm:
+        rf_ = [lp_ for lp_ in walk(mb) if lp_.get('kind') == 'CXXForRangeStmt' and lp_['_off'] > ret['_off'] and any(canon(x_) == 'thread_rets' for x_ in walk(lp_) if x_.get('kind') == 'DeclRefExpr')]
+        starts_empty = not any(x_.get('kind') == 'CXXOperatorCallExpr' and call_name(x_) == 'operator[]' for x_ in walk(ret))
+        if len(rf_) == 1 and starts_empty:
+            mg_ = [c for c in walk(loop_body(rf_[0])) if c.get('kind') == 'CXXMemberCallExpr' and call_name(c) in ('insert', 'merge') and canon(member_call_object(c)) == 'ret']
+            cond_ = any(x_.get('kind') in ('IfStmt', 'ContinueStmt', 'BreakStmt') for x_ in walk(loop_body(rf_[0])))
+            if len(mg_) == 1 and not cond_:
+                okm, why = True, 'an empty result is merged with every element of thread_rets'
     ctx.check(okm, R, 'multi|all-sets-merged', ret or M, why, 'the merge does not cover every per-thread set: ' + why)
     fwd = [c for c in walk(mb) if c.get('kind') == 'CallExpr' and call_name(c) == 'parallel_range_blocks']
     ctx.check(len(fwd) == 1 and [nf(a) for a in call_args(fwd[0])[1:]] == ['start_value', 'end_value', 'block_size', 'num_threads', 'progress_fn'], R, 'multi|delegates', fwd[0] if fwd else M, 'delegates to parallel_range_blocks over the same range and thread count', 'the delegation to parallel_range_blocks changed')
